@@ -1431,9 +1431,46 @@ pub fn gen_go(rng: &mut Rng, root: &Pos, kind: u64) -> GoSpec {
     g
 }
 
+/// Marathon session: hundreds of short searches on ONE engine instance, each position searched once at
+/// depth 2-3 and revisited exactly 256 searches later with `searchmoves` excluding nothing but one move
+/// (whatever a counter, generation stamp or table carries over for N operations must not matter).
+pub fn gen_plan_marathon(focus: &str, seed: u64, pool: &[Pos]) -> EnginePlan {
+    let mut rng = Rng::new(seed);
+    let knobs = Knobs { poll_interval: 100_000, tt_capacity: 0 };
+    let first = 300usize;
+    let mut firsts: Vec<(Option<String>, Vec<String>, u64)> = Vec::new();
+    let quiet = |pos: PosSpec, go: GoSpec, newgame: bool| Cycle { newgame, pos, pre_lines: vec![], go, ns_per_node: 1000, gap_ns: 1_000_000, jumps: vec![], stop_before_dequeue: false, events: vec![], post_lines: vec![] };
+    let mut cycles = Vec::new();
+    for i in 0..first + 256 {
+        if i >= 256 && i - 256 < firsts.len() {
+            let (fen, moves, d) = firsts[i - 256].clone();
+            let mut g = GoSpec::depth(1 + rng.below(d));
+            g.layout = rng.next_u64();
+            g.searchmoves_picks = vec![rng.below(256) as u32];
+            cycles.push(quiet(PosSpec::Set { fen, moves }, g, false));
+            continue;
+        }
+        let game = random_game(&mut rng, pool, 6, false);
+        if !game.root().has_legal_move() {
+            continue;
+        }
+        let d = if piece_count(game.root()) > 14 { 2 } else { 2 + rng.below(2) };
+        let mut g = GoSpec::depth(d);
+        g.layout = rng.next_u64();
+        if i < first {
+            firsts.push((game.fen.clone(), game.moves.clone(), d));
+        }
+        cycles.push(quiet(PosSpec::Set { fen: game.fen.clone(), moves: game.moves.clone() }, g, i == 0));
+    }
+    EnginePlan { focus: focus.to_string(), knobs, cycles, enumerate_interrupts: false, twin: false }
+}
+
 /// Generic session plan (C07 / C16 / C15 engine level).
 pub fn gen_plan(focus: &str, seed: u64, thorough: bool, pool: &[Pos]) -> EnginePlan {
     let mut rng = Rng::new(seed);
+    if (focus == "C07" || focus == "C08") && rng.chance(1, 40) {
+        return gen_plan_marathon(focus, rng.next_u64(), pool);
+    }
     let fault_free = rng.chance(1, 4);
     let knobs = Knobs { poll_interval: *rng.pick(POLL_INTERVALS), tt_capacity: *rng.pick(TT_CAPS) };
     let n_cycles = 1 + rng.usize_below(if thorough { 8 } else { 5 });
@@ -1717,7 +1754,25 @@ pub fn gen_plan_draw(seed: u64, thorough: bool, imbalanced: &[Pos]) -> EnginePla
             go.depth = Some(1);
             go.searchmoves_picks = vec![rng.below(256) as u32];
         }
-        cycles.push(Cycle { newgame: ci == 0 || rng.chance(1, 4), pos: PosSpec::Set { fen: game.fen.clone(), moves: game.moves.clone() }, pre_lines: vec![], go, ns_per_node: 1000, gap_ns: 1_000_000, jumps: vec![], stop_before_dequeue: false, events: vec![], post_lines: vec![] });
+        let set_cycle = Cycle { newgame: ci == 0 || rng.chance(1, 4), pos: PosSpec::Set { fen: game.fen.clone(), moves: game.moves.clone() }, pre_lines: vec![], go, ns_per_node: 1000, gap_ns: 1_000_000, jumps: vec![], stop_before_dequeue: false, events: vec![], post_lines: vec![] };
+        cycles.push(set_cycle.clone());
+        if rng.chance(1, 5) {
+            // a position command the engine must reject (illegal move, possibly the very first one)
+            // followed by go WITHOUT position: board and game history must both be the old ones
+            let mut broken = set_cycle.clone();
+            broken.newgame = false;
+            broken.pos = PosSpec::Broken { line: broken_position(&mut rng, &game) };
+            if rng.chance(1, 2) {
+                let other = random_game(&mut rng, imbalanced, 6, true);
+                let mut mv = other.moves.clone();
+                mv.insert(rng.usize_below(mv.len() + 1).min(2), "h8h1".to_string());
+                let bad_line = format!("{} moves {}", match &other.fen { None => "position startpos".to_string(), Some(f) => format!("position fen {}", f) }, mv.join(" "));
+                if uciref::expect(&bad_line) != Expect::Unspecified && CurPos::from_spec(&other.fen, &mv).is_none() {
+                    broken.pos = PosSpec::Broken { line: bad_line };
+                }
+            }
+            cycles.push(broken);
+        }
     }
     EnginePlan { focus: "C10".into(), knobs, cycles, enumerate_interrupts: false, twin: false }
 }
